@@ -290,7 +290,10 @@ class HTTP1Connection(httputil.HTTPConnection):
                 await self._finish_future
             if self.is_client and self._disconnect_on_finish:
                 self.close()
-            if self.stream is None:
+            if self.stream is None or self.stream.closed():
+                # Detached, or closed (for example because the request did not
+                # allow keep-alive): requests that are still sitting in the
+                # read buffer must not be served.
                 return False
         except httputil.HTTPInputError as e:
             gen_log.info("Malformed HTTP message from %s: %s", self.context, e)
